@@ -308,7 +308,15 @@ fn async_cmd(a: &Args) {
             ops.push(op.to_string());
         }
         let _ = in_flight;
-        let st = run_session(&mut s, &ops, rng.gen(), a.num("quiet-us", 300), a.num("hold-ms", 3));
+        // now and then an ordinary top-level system panics inside the background job
+        let mut panics = Vec::new();
+        if rng.gen_bool(a.num("ppanic", 0.0)) {
+            let cand: Vec<usize> = s.rec.sys.iter().filter(|x| x.kind == "plain" && x.builder == s.top && x.addr != 0).map(|x| x.gid).collect();
+            if let Some(g) = cand.choose(&mut rng) {
+                panics.push(*g);
+            }
+        }
+        let st = run_session(&mut s, &ops, rng.gen(), a.num("quiet-us", 300), a.num("hold-ms", 3), &panics);
         let _ = st;
         ncall += ops.len();
         nsys += prog.count_systems();
